@@ -88,7 +88,35 @@ def struct_def(rnd, tid):
     ps = [f for f in fields if f["ann"]["positional"]]
     for f in ps[:-1]:
         f["ty"] = "T"
-    return {"id": tid, "shape": "struct", "fields": fields, "variants": [], "version": rnd.random() < 0.3}
+    # type-level doc comment: first block = description, second = header, the rest = footer; an explicit
+    # descr(..) / header(..) replaces the block it names
+    nb = rnd.choice([0, 0, 1, 2, 3])
+    docs = [f"DOC{j + 1}-{tid}" for j in range(nb)]
+    return {"id": tid, "shape": "struct", "fields": fields, "variants": [], "version": rnd.random() < 0.3,
+            "docs": docs, "descr_attr": f"XDESCR-{tid}" if rnd.random() < 0.25 else "",
+            "header_attr": f"XHEADER-{tid}" if rnd.random() < 0.2 else ""}
+
+
+def snake(name):
+    out = ""
+    for i, c in enumerate(name):
+        out += ("_" if c.isupper() and i else "") + c.lower()
+    return out
+
+
+CMD_TYPE_NAMES = ["DryRun", "Build", "ListAll", "X", "CheckOutNow"]
+
+
+def cmdstruct_def(rnd, tid, i):
+    """a struct that is a subcommand by itself (`#[bpaf(command)]` without a name): the command is named after the type"""
+    k = rnd.randint(0, 2)
+    names = uniq_names(rnd, k, FIELD_NAMES) if k else []
+    fields = [field(rnd, n, j, tid) for j, n in enumerate(names)]
+    for f in fields:
+        f["ann"].update(positional=False, posmeta="", hide=False)
+    tname = CMD_TYPE_NAMES[i % len(CMD_TYPE_NAMES)] + str(i)
+    return {"id": tid, "shape": "cmdstruct", "fields": fields, "variants": [], "version": False, "tname": tname, "tchars": chars(tname),
+            "help": f"HELP-{tid}-cmd" if rnd.random() < 0.7 else ""}
 
 
 def tuple_def(rnd, tid):
@@ -158,6 +186,9 @@ def family(seed, n):
         tid = f"T{i}"
         if i % 10 == 9:
             out.append(nested_def(rnd, tid))
+            continue
+        if i % 10 == 7:
+            out.append(cmdstruct_def(rnd, tid, i))
             continue
         r = i % 6
         if r in (0, 1, 2):
@@ -253,9 +284,29 @@ def rust_source(tds):
             ivals = ", ".join(val_expr(f, f"t.inner.{rn(f)}") for f in inn["fields"])
             vals.append(f"Val::Tuple(vec![{ivals}])")
             out.append(f"impl From<{tid}> for Val {{ fn from(t: {tid}) -> Val {{ Val::Tuple(vec![{', '.join(vals)}]) }} }}")
-        elif td["shape"] in ("struct", "tuple"):
+        elif td["shape"] == "cmdstruct":
+            if td["help"]:
+                out.append(f"/// {td['help']}")
             out.append("#[derive(Debug, Clone, Bpaf)]")
-            out.append(f"#[bpaf({top})]")
+            out.append("#[bpaf(command)]")
+            out.append(f"pub struct {td['tname']} {{")
+            for f in td["fields"]:
+                out.append(field_attrs(f) + f"    {rn(f)}: {rust_ty(f)},")
+            out.append("}")
+            vals = ", ".join(val_expr(f, f"t.{rn(f)}") for f in td["fields"])
+            out.append(f"impl From<{td['tname']}> for Val {{ fn from(t: {td['tname']}) -> Val {{ Val::Tuple(vec![Val::Variant(0, Box::new(Val::Tuple(vec![{vals}])))]) }} }}")
+            reg.append(f'        "{tid}" => Box::new(|a: &[std::ffi::OsString]| {snake(td["tname"])}().to_options().run_inner(Args::from(a).set_name("app")).map(Val::from)),')
+            out.append("")
+            continue
+        elif td["shape"] in ("struct", "tuple"):
+            for j, b in enumerate(td.get("docs", [])):
+                if j:
+                    out += ["///", "///"]         # blocks are separated by two empty lines
+                out.append(f"/// {b}")
+            out.append("#[derive(Debug, Clone, Bpaf)]")
+            tl = [top] + ([f'descr("{td["descr_attr"]}")'] if td.get("descr_attr") else []) + \
+                ([f'header("{td["header_attr"]}")'] if td.get("header_attr") else [])
+            out.append(f"#[bpaf({', '.join(tl)})]")
             if td["shape"] == "struct":
                 out.append(f"pub struct {tid} {{")
                 for f in td["fields"]:
